@@ -2,6 +2,7 @@ package rules
 
 import (
 	"fmt"
+	"go/token"
 	"go/types"
 	"sort"
 	"strings"
@@ -206,6 +207,24 @@ func C15(c *Ctx) {
 		type voteEnv struct {
 			fn            *ssa.Function
 			addr, approve ssa.Value
+			// elector: a *Role parameter that receives the elector whose ID was found equal to the voter's address;
+			// its ID field then stands for the address
+			elector ssa.Value
+		}
+		isAddrIn := func(e voteEnv) func(ssa.Value) bool {
+			return func(v ssa.Value) bool {
+				if e.addr != nil && v == e.addr {
+					return true
+				}
+				if e.elector != nil {
+					for _, o := range append(core.Origins(v), v) {
+						if _, f, base, ok := core.FieldOf(o); ok && f == "ID" && core.Strip(base) == e.elector {
+							return true
+						}
+					}
+				}
+				return false
+			}
 		}
 		mkMember := func(e voteEnv) core.EdgeSet {
 			if e.addr == nil {
@@ -216,7 +235,7 @@ func C15(c *Ctx) {
 		mkAbsent := func(e voteEnv) core.EdgeSet {
 			// ballot absent: `_, ok := p.BallotMap[addr]; ok` false edge
 			return condEdges(e.fn, func(f core.Fact, ifi *ssa.If) (bool, int) {
-				if f.Kind != core.FBool || e.addr == nil {
+				if f.Kind != core.FBool || (e.addr == nil && e.elector == nil) {
 					return false, 0
 				}
 				ex, ok := f.Subject.(*ssa.Extract)
@@ -224,7 +243,7 @@ func C15(c *Ctx) {
 					return false, 0
 				}
 				lk, ok := ex.Tuple.(*ssa.Lookup)
-				if !ok || !core.Mentions(lk.X, fieldLoad("Proposal", "BallotMap")) || !core.Direct(func(v ssa.Value) bool { return v == e.addr })(lk.Index) {
+				if !ok || !core.Mentions(lk.X, fieldLoad("Proposal", "BallotMap")) || !(core.Direct(func(v ssa.Value) bool { return e.addr != nil && v == e.addr })(lk.Index) || isAddrIn(e)(core.Strip(lk.Index))) {
 					return false, 0
 				}
 				return true, 1 - holdsEdge(f)
@@ -246,7 +265,7 @@ func C15(c *Ctx) {
 			call, ok := in.(ssa.CallInstruction)
 			return ok && core.IsStubCall("SetObject")(valueOf(call))
 		}
-		top := voteEnv{setVote, setVote.Params[2], setVote.Params[3]}
+		top := voteEnv{fn: setVote, addr: setVote.Params[2], approve: setVote.Params[3]}
 		checkVote := func(mk func(voteEnv) core.EdgeSet, isSite InstrPred, edgeName, siteName string) int {
 			n := c.behindEdges("R15.2", "setVote", setVote, mk(top), isSite, edgeName, siteName)
 			outer := core.Reach([]core.Point{core.EntryOf(setVote)}, nil, core.CutOf(mk(top)))
@@ -270,6 +289,26 @@ func C15(c *Ctx) {
 					}
 					if core.Strip(a) == top.approve {
 						env.approve = h.Params[ai]
+					}
+					// the matched elector: an element whose ID the caller compared with the voter's address
+					if strings.HasSuffix(a.Type().String(), "contracts.Role") {
+						matched := false
+						for _, b := range setVote.Blocks {
+							if ifi := core.IfOf(b); ifi != nil {
+								if bo, ok := ifi.Cond.(*ssa.BinOp); ok && (bo.Op == token.EQL || bo.Op == token.NEQ) {
+									for _, side := range [][2]ssa.Value{{bo.X, bo.Y}, {bo.Y, bo.X}} {
+										if core.Strip(side[0]) == top.addr {
+											if _, f, base, ok := core.FieldOf(side[1]); ok && f == "ID" && sameValue(base, a) {
+												matched = true
+											}
+										}
+									}
+								}
+							}
+						}
+						if matched {
+							env.elector = h.Params[ai]
+						}
 					}
 				}
 				n += c.behindEdges("R15.2", h.Name(), h, mk(env), isSite, edgeName, siteName)
